@@ -97,3 +97,11 @@ package bcl
 //@   ensures [C02,C03] unresolved_only_if_no_block_has_it: (name != "TYPE" && name != "NAME" && !ok) ==> (forall j int :: 0 <= j && j < vm.blockTos ==> !has(vm.blockStack[j].Fields, name))
 //@   loop 1 invariant 0 - 1 <= i && i < vm.blockTos && name != "TYPE" && name != "NAME" && (forall j int :: i < j && j < vm.blockTos ==> !has(vm.blockStack[j].Fields, name))
 //@   modifies nothing
+
+// observers called from the trace branch (details: C19)
+//@ group C19,C06
+//@ func printStack
+//@   modifies nothing
+//@ func (*Prog).disasmInstr
+//@   requires in_code: 0 <= offset && offset < len(p.code) && len(p.positions) == len(p.code) && p.linePos != nil
+//@   modifies nothing
